@@ -995,3 +995,35 @@ def _subst_key(k, f):
     if isinstance(k, tuple):
         return tuple(_subst_key(x, f) for x in k)
     return k
+
+
+def replace_atom(v, atom, value):
+    """deep replacement of an atom (also inside the arguments of other atoms) by the polynomial `value`"""
+    if isinstance(v, Poly):
+        out = Poly()
+        for mono, c in v.t.items():
+            term = Poly.const(c)
+            for a, e in mono:
+                if a == atom:
+                    base = value
+                elif a[0] == "f":
+                    base = Poly.atom(("f", a[1]) + tuple(_replace_key(x, atom, value) for x in a[2:]))
+                else:
+                    base = Poly.atom(a)
+                for _ in range(e):
+                    term = term * base
+            out = out + term
+        return out
+    if isinstance(v, tuple):
+        return tuple(replace_atom(x, atom, value) if isinstance(x, (Poly, tuple, list)) else x for x in v)
+    if isinstance(v, list):
+        return [replace_atom(x, atom, value) for x in v]
+    return v
+
+
+def _replace_key(k, atom, value):
+    if isinstance(k, tuple) and len(k) == 2 and k[0] == "P" and isinstance(k[1], Poly):
+        return ("P", replace_atom(k[1], atom, value))
+    if isinstance(k, tuple):
+        return tuple(_replace_key(x, atom, value) for x in k)
+    return k
